@@ -127,6 +127,11 @@ def check_text(ctx, text, origin, mode):
         report = MAIN_REPORT
         contextualize_report('first = 1\n' * (3 if len(text) % 2 else 0) + 'kept = 2\n')
         call = lambda: verify(text, filename='fragment.py')
+    elif mode == 'contextualize-under-another-filename':
+        # the documented way to name the student's file when the submission is given as text
+        report = MAIN_REPORT
+        contextualize_report(text, filename='student_work.py')
+        call = lambda: verify()
     elif mode == 'verify-after-substitution-restored':
         # the grader looked at some other code for a while (set_source substitutes and verifies it) and went back to the submission
         from pedal.source.source import restore_code
@@ -238,7 +243,7 @@ def check_text(ctx, text, origin, mode):
 
 
 MODES = ['verify', 'verify', 'set_source', 'private', 'section', 'set_source-other-filename', 'verify-given-code-and-filename',
-         'verify-after-substitution-restored', 'verify-after-the-submission-was-replaced']
+         'verify-after-substitution-restored', 'verify-after-the-submission-was-replaced', 'contextualize-under-another-filename']
 SECTION_PREFIXES = ['a = 1\rb = 2\n', 'a = 1\r\nb = 2\r\n', 'x = 1\r\r\ny = 2\n', '', 'a = 1\n', 'a = 1\nb = 2\n\n', '# page\x0cbreak\nx = "\x0c"\n', 'import math\n\n\n\n',
                     's = "\u2028"\nt = "\x1c\x1d"\n', '\n\n', 'def f():\n    return 1\n']
 
@@ -252,7 +257,7 @@ def run(ctx):
     repo = os.path.realpath(os.environ.get('VERIF_REPO', '/repo'))
     if ctx.shard == 0:
         for t in HOSTILE:
-            for mode in ('verify', 'set_source', 'private', 'section') + (('set_source-other-filename', 'verify-given-code-and-filename', 'verify-after-substitution-restored', 'verify-after-the-submission-was-replaced') if len(t) < 5000 else ()):
+            for mode in ('verify', 'set_source', 'private', 'section') + (('set_source-other-filename', 'verify-given-code-and-filename', 'verify-after-substitution-restored', 'verify-after-the-submission-was-replaced', 'contextualize-under-another-filename') if len(t) < 5000 else ()):
                 check_text(ctx, t, 'hostile', mode)
         # NUL / CR / FF / BOM inserted at every position of a short program
         base = 'x = 1\nif x:\n    print("a")\n'
